@@ -56,14 +56,23 @@ def main():
     tmp = tempfile.mkdtemp(prefix=f"verif_{pid}_")
     deadline_each = float(os.environ.get("VERIF_SHARD_TIMEOUT", 900 if tier == "quick" else 3 * 3600))
     pending = list(range(nshards))
+    # coverage-guided campaigns (atheris) over the same generator and oracle run as additional jobs and are merged like shards
+    fuzz_procs, fuzz_runs = getattr(prop, "FUZZ", {}).get(tier, (0, 0))
+    if args.examples is not None or os.environ.get("VERIF_NO_FUZZ"):
+        fuzz_procs = 0
+    fuzz_jobs = {nshards + k: k for k in range(fuzz_procs)}
+    pending = list(fuzz_jobs) + pending
     running = {}
     finished = []
     while pending or running:
-        while pending and len(running) < width:
+        while pending and len(running) < width + len(fuzz_jobs):
             i = pending.pop(0)
             out = os.path.join(tmp, f"shard{i}.json")
-            cmd = [sys.executable, "-m", "vlib.worker", pid, tier, str(seed), str(i)]
-            cmd += [str(nshards), str(per[i]), out]
+            if i in fuzz_jobs:
+                cmd = [sys.executable, "-m", "vlib.fuzz", pid, tier, str(seed * 1000 + fuzz_jobs[i]), str(fuzz_runs), out]
+            else:
+                cmd = [sys.executable, "-m", "vlib.worker", pid, tier, str(seed), str(i)]
+                cmd += [str(nshards), str(per[i]), out]
             log = open(os.path.join(tmp, f"shard{i}.log"), "w")
             env = dict(os.environ)
             env.update(getattr(prop, "shard_env", lambda i, n: {})(i, nshards))
@@ -77,7 +86,7 @@ def main():
                 rc = p.wait()
                 # a time limit is "inconclusive", never a violation: keep what the shard had finished
                 try:
-                    with open(out + ".partial") as f:
+                    with open(out if i in fuzz_jobs else out + ".partial") as f:
                         st = json.load(f)
                     st["timed_out"] = True
                 except Exception:  # noqa: BLE001
@@ -87,7 +96,8 @@ def main():
                 rc = 0 if st.get("timed_out") else rc
             if rc is not None:
                 log.close()
-                finished.append((i, rc, out))
+                # libFuzzer ends the process itself (exit code 0 after -runs); its statistics file is complete at any time
+                finished.append((i, 0 if (i in fuzz_jobs and rc in (0, 1) and os.path.exists(out)) else rc, out))
                 del running[i]
     finished.sort()
 
@@ -207,6 +217,7 @@ def main():
             "worst_observed": merged["metrics"],
             "known_finding_hits": known_hits,
             "shards": nshards,
+            "coverage_guided_campaigns": {"processes": len(fuzz_jobs), "runs_each": fuzz_runs, "engine": "atheris/libFuzzer via hypothesis fuzz_one_input"} if fuzz_jobs else None,
             "shards_stopped_by_time_limit": len(timed_out),
         },
         "assumptions": list(getattr(prop, "ASSUMPTIONS", [])),
